@@ -165,6 +165,7 @@ class Ctx:
         self.notes = []
         self.known = known
         self.skipped = []
+        self.broken_msgs = []
 
     def rule(self, rid, doc, floor=1):
         self.rule_doc[rid] = doc
@@ -178,6 +179,15 @@ class Ctx:
 
     def broken(self, msg):
         raise Broken(msg)
+
+    def step(self, fn, *a, **kw):
+        """run one rule; a rule that finds its anchor gone / shape unrecognisable
+        is recorded as broken and the other rules still run"""
+        try:
+            return fn(*a, **kw)
+        except Broken as e:
+            self.broken_msgs.append(str(e))
+            return None
 
     def note(self, msg):
         if msg not in self.notes:
@@ -285,9 +295,9 @@ def finish(ctx, mod, t0, n_patterns, units):
         counts[o["rule"]] = counts.get(o["rule"], 0) + 1
     for rid, floor in ctx.floors.items():
         if counts.get(rid, 0) < floor:
-            raise Broken("rule %s matched %d instance(s), fewer than the %d confirmed by hand "
-                         "(anchor vanished or shape no longer recognised)" %
-                         (rid, counts.get(rid, 0), floor))
+            ctx.broken_msgs.append("rule %s matched %d instance(s), fewer than the %d confirmed by hand "
+                                   "(anchor vanished or shape no longer recognised)" %
+                                   (rid, counts.get(rid, 0), floor))
     bad = [o for o in ctx.obs if not o["ok"]]
     # group violations by (rule, site)
     groups = {}
@@ -368,6 +378,7 @@ def finish(ctx, mod, t0, n_patterns, units):
                           "hand-confirmed tables in /verif/tables"],
             exhaustive=True,
             known_findings=n_known,
+            analysis_broken=ctx.broken_msgs,
         ),
         assumptions=getattr(mod, "ASSUMPTIONS", []),
         wall_s=round(time.time() - t0, 2),
@@ -377,9 +388,13 @@ def finish(ctx, mod, t0, n_patterns, units):
     json.dump(ev, open(os.path.join(evdir, prop + ".json"), "w"), indent=1)
     for l in lines:
         print(l)
+    for b in ctx.broken_msgs:
+        print("ANALYSIS-BROKEN property=%s: %s" % (prop, b))
     print("%s %s: %d obligations, %d discharged, %d violation site(s), %d known finding(s), %.1fs" %
           (prop, ctx.tier, len(ctx.obs), len(ctx.obs) - len(bad), n_viol, n_known, time.time() - t0))
-    return 1 if n_viol else 0
+    if n_viol:
+        return 1
+    return 2 if ctx.broken_msgs else 0
 
 
 def main(argv=None):
